@@ -13,7 +13,7 @@ META = {
                    "payment_for_us_exists_and_is_still_valid the Ok return and notify_payment_received are cut by verify_for, !has_expired, "
                    "no out-of-range payee, verify_data_payment Ok, and every quote of this node is compared with the stored address; "
                    "(4) ProofOfPayment::verify_for returns true only after payee membership and a signature check of every quote. "
-                   "Not decided: what the payment contract answers; closeness as a numeric fact.",
+                   "Also: verify_data_payment tests isValid for every result of the contract call (none is skipped) and submits every quote; every own quote is compared with the stored address (none is skipped); the quote-binding rules (signature field coverage, verifier, quotes_by_peer) and the expiry rules of C13 are evaluated here as C03.* because these clauses rest on them. Not decided: what the payment contract answers; closeness as a numeric fact.",
     "not_decided": ["the payment contract's answer (external call)", "numeric closeness of payees"],
 }
 
